@@ -302,6 +302,91 @@ def h_order(su: int, body: int, td: int, nact: int, s0: int, a0: int, s1: int, a
     return ch.finish(not o["problems"], v, nontrivial)
 
 
+# --- the same callable registered several times with equal arguments ---------------------------------------
+def run_dup(nreg, sites, kind, form):
+    """nreg registrations of one callable with equal arguments at the given sites (0 setUp, 1 body, 2 tearDown, 3 inside
+    the 'mid' cleanup), plus a distinct cleanup 'mid' registered at the start of the body. form: 0 plain function with an
+    argument, 1 bound method without arguments, 2 function with an equal keyword argument."""
+    log = []
+
+    class Gen(testtools.TestCase):
+        def _reg(self, site):
+            for j in range(nreg):
+                if sites[j] == site:
+                    if form == 0:
+                        self.addCleanup(shared, "arg")
+                    elif form == 1:
+                        self.addCleanup(self.shared_method)
+                    else:
+                        self.addCleanup(shared, tag="loop")
+
+        def shared_method(self):
+            shared()
+
+        def setUp(self):
+            super().setUp()
+            self._reg(0)
+
+        def test_it(self):
+            self.addCleanup(self._mid)
+            self._reg(1)
+
+        def tearDown(self):
+            self._reg(2)
+            super().tearDown()
+
+        def _mid(self):
+            log.append("mid")
+            self._reg(3)
+
+    def shared(*a, **kw):
+        log.append("shared")
+        P.behave(case, kind)
+
+    case = Gen("test_it")
+    names1, exc1, _ = L.run_once(case, P.FEXT)
+    log1 = list(log)
+    left = len(case._cleanups)
+    del log[:]
+    L.run_once(case, P.FEXT)
+    # reference: registration order by stage, LIFO; registrations made inside 'mid' run right after it
+    order = ["shared"] * sum(1 for j in range(nreg) if sites[j] == 0) + ["mid"] + \
+            ["shared"] * sum(1 for j in range(nreg) if sites[j] in (1, 2))
+    want = []
+    for name in reversed(order):
+        want.append(name)
+        if name == "mid":
+            want += ["shared"] * sum(1 for j in range(nreg) if sites[j] == 3)
+    problems = []
+    if log1 != want:
+        problems.append("cleanup calls %r, expected %r (one call per registration, LIFO)" % (log1, want))
+    if left:
+        problems.append("cleanups left registered after run()")
+    if list(log) != log1:
+        problems.append("second run differs: %r vs %r" % (list(log), log1))
+    return {"log": log1, "expected": want, "problems": problems}
+
+
+def h_dup(nreg: int, s0: int, s1: int, s2: int, kind: int, form: int) -> bool:
+    """
+    pre: 1 <= nreg <= 3 and 0 <= s0 < 4 and 0 <= s1 < 4 and 0 <= s2 < 4 and 0 <= kind < 3 and 0 <= form < 3
+    post: _
+    """
+    try:
+        n = ch.sel("nreg", nreg, 4)
+        if n < 1:
+            return True
+        raw = [s0, s1, s2]
+        v = dict(nreg=n, kind=ch.sel("kind", kind, 3), form=ch.sel("form", form, 3))
+        sites = [ch.sel("s%d" % j, raw[j], 4) for j in range(n)]
+        v["sites"] = tuple(sites)
+    except ch.Prune:
+        return True
+    o = run_dup(n, sites, K5[v["kind"]], v["form"])
+    ch.LAST.update(o)
+    return ch.finish(not o["problems"], v, nontrivial=n >= 2)
+
+
 def _args_from(v):
     return (v.get("su", 0), v.get("body", 0), v.get("td", 0), v.get("nact", 0),
             v.get("s0", 0), v.get("a0", 0), v.get("s1", 0), v.get("a1", 0), v.get("s2", 0),
@@ -383,6 +468,13 @@ HARNESSES = [
         assumptions=["fixtures.Fixture (fixtures 4.3.2 from /venv) is the fixture implementation",
                      "cleanup bodies log the current value of the patched attribute, which makes the "
                      "position of each patch's undo in the LIFO order observable"]),
+    Harness(
+        "dup", h_dup, lambda tier: [({"form": f}, 300) for f in range(3)],
+        bounds={"quick": "one callable registered 1..3 times with EQUAL arguments (plain function + argument, bound method, function + "
+                         "keyword argument), each registration in setUp / body / tearDown / inside another cleanup, behaving {return, "
+                         "fail, error}, next to one distinct cleanup: one call per registration at its LIFO position; run twice"},
+        rule="non-trivial = at least 2 equal registrations",
+        describe=lambda nreg, s0, s1, s2, kind, form: run_dup(nreg, [s0, s1, s2][:nreg], K5[kind], form)),
 ]
 OUTSIDE = ["more than 3 registered actions; cleanups registered from cleanups other than action 0",
            "third-party fixture classes"]
